@@ -28,10 +28,8 @@ ASSUMPTIONS = [
     'queue, timers by deadline, I/O observed once per iteration)',
     'PyCA primitives are correct',
     'both endpoints are asyncssh (an independent peer is used in C02)',
-    'tunnel channels: a packet, with its address family in layer 3 mode, is '
-    'at most half the receiver\'s window and at most its maximum packet '
-    'size (a receiver re-opens its window only below half, so that is what '
-    'a packet sent whole can count on)',
+    'tunnel channels: a packet, with its address family in layer 3 mode, '
+    'fits the receiver\'s window and its maximum packet size',
 ]
 
 REAL = ['asyncssh connection/channel/session/stream code of both endpoints',
